@@ -200,7 +200,7 @@ pub fn c13(ctx: &Ctx) -> Report {
     let mut rep = Report::new();
     rep.rule.push("E1: plain enumeration of ALL operation sequences to a depth (no state merging) on the real glide processor: process(x) for x in {0, 1, -1, 0.5, 10}, two 8-sample holds, set_time(t) for ten times from 0 to 10 s incl. 1/fs..5/fs; plus all schedules with <= 2 set_time calls at every sample index of a 40-sample glide; plus long holds (8*t*fs samples) for convergence; after every sample: output within [min(0, inputs), max(0, inputs)] +- A, with A = 2*ulp(M)/(1-p); while the input is held, from the second held sample on, the output never moves away from it nor crosses it (beyond A); non-trivial = held samples checked while the output was still moving".into());
     let thorough = ctx.tier.is_thorough();
-    let rates: Vec<(f32, u32)> = if thorough { vec![(100.0, 6), (1000.0, 6), (48000.0, 6)] } else { vec![(100.0, 5), (1000.0, 5), (48000.0, 5)] };
+    let rates: Vec<(f32, u32)> = if thorough { vec![(100.0, 6), (1000.0, 6), (48000.0, 6), (441.0, 5), (8000.0, 5), (44100.0, 5), (12345.0, 5)] } else { vec![(100.0, 5), (1000.0, 5), (48000.0, 5), (441.0, 4), (44100.0, 4)] };
     for (fs, depth) in rates {
         let m = GlideM::new(fs, vec![0.0, 1.0, -1.0, 0.5, 10.0], tmenu(fs));
         enumerate_sequences(&m, depth, ctx, &mut rep, &["C13"], &format!("all operation sequences of length {} at {} Hz", depth, fs));
@@ -358,7 +358,7 @@ pub fn c14(ctx: &Ctx) -> Report {
     let mut rep = Report::new();
     rep.rule.push("(a) E2 over the plane: 6 sample rates x a x1.5 geometric grid of times from 100/fs to 10 s (plus 20, 100, 1e6 s compared with 10 s, and the sub-2-sample times 0, 0.1/fs, 1/fs, 1.9/fs) x 6 steps: the real processor is settled, stepped, and the fraction covered after t and t/10 seconds is compared with the statement's bounds (+- the f32 allowance); (b) E1: all set_time schedules of length <= 4 over a 9-time menu and creeping ramps: the measured step response must satisfy the criterion for a time the 0.05 s dead-band rule allows to be in effect; non-trivial = step responses measured with >= 100 samples per t".into());
     let thorough = ctx.tier.is_thorough();
-    let rates: [f32; 6] = [100.0, 441.0, 1000.0, 8000.0, 44100.0, 48000.0];
+    let rates: [f32; 9] = [100.0, 441.0, 1000.0, 8000.0, 44100.0, 48000.0, 22050.0, 12345.0, 250.0];
     let steps: [(f32, f32); 6] = [(0.0, 1.0), (1.0, 0.0), (0.0, 10.0), (-1.0, 1.0), (0.25, 0.75), (5.0, 5.083_333_5)];
     let mut jobs: Vec<(f32, f32)> = Vec::new();
     for fs in rates {
@@ -367,7 +367,7 @@ pub fn c14(ctx: &Ctx) -> Report {
             if thorough || t * fs <= 200_000.0 {
                 jobs.push((fs, t));
             }
-            t *= 1.5;
+            t *= if thorough { 1.13 } else { 1.5 };
         }
         if thorough || fs <= 8000.0 {
             jobs.push((fs, 10.0));
